@@ -18,7 +18,7 @@ VERIF = os.path.dirname(os.path.dirname(os.path.dirname(os.path.abspath(__file__
 REPO = os.environ.get("VERIF_REPO", "/repo")
 EVIDENCE_DIR = os.path.join(VERIF, "evidence")
 REPLAY_DIR = os.path.join(VERIF, "replays")
-FINDINGS_FILE = os.path.join(VERIF, "known_findings.json")
+FINDINGS_FILE = os.environ.get("VERIF_FINDINGS") or os.path.join(VERIF, "known_findings.json")
 EVIDENCE_SCHEMA = "/root/.vp/EVIDENCE.schema.json"
 NCPU = min(16, os.cpu_count() or 1)
 
